@@ -202,7 +202,12 @@ var probeOps = []Op{
 	{Kind: "put", Name: "a", Value: "new"}, {Kind: "put", Name: "b", Value: "bee"}, {Kind: "put", Name: "", Value: "x"}, {Kind: "put", Name: "_internal/x", Value: "x"},
 	{Kind: "activate", Name: "a", Ver: 2}, {Kind: "activate", Name: "a", Ver: 0}, {Kind: "activate", Name: "zz", Ver: 1},
 	{Kind: "delver", Name: "a", Ver: 2}, {Kind: "delver", Name: "a", Ver: 1}, {Kind: "delete", Name: "a"}, {Kind: "delete", Name: "zz"},
+	// names of unusual shape: long (nothing bounds a name's length), with a newline, with a quote and a backslash
+	{Kind: "get", Name: longName}, {Kind: "put", Name: longName, Value: "v"}, {Kind: "delete", Name: longName},
+	{Kind: "put", Name: "line1\nline2", Value: "v"}, {Kind: "get", Name: `q"uote\back`},
 }
+
+var longName = "tenant/" + strings.Repeat("k", 300) + "/db-password"
 
 type entry struct {
 	ID            uint64          `json:"id"`
